@@ -317,9 +317,13 @@ func (val Value) Equals(other Value) Value {
 
 		// Two sets are equal if all of their values are known and all values
 		// in one are also in the other.
+		ety := ty.ElementType()
 		for it := s1.Iterator(); it.Next(); {
 			rv := it.Value()
-			if _, unknown := rv.(*unknownType); unknown { // "*unknownType" is the internal representation of unknown-ness
+			// A member that is unknown, or that has an unknown value anywhere
+			// inside it, cannot be looked up in the other set: whether it
+			// equals one of that set's members is not known yet.
+			if !(Value{ty: ety, v: rv}).IsWhollyKnown() {
 				return unknownResult()
 			}
 			if !s2.Has(rv) {
@@ -328,7 +332,7 @@ func (val Value) Equals(other Value) Value {
 		}
 		for it := s2.Iterator(); it.Next(); {
 			rv := it.Value()
-			if _, unknown := rv.(*unknownType); unknown { // "*unknownType" is the internal representation of unknown-ness
+			if !(Value{ty: ety, v: rv}).IsWhollyKnown() {
 				return unknownResult()
 			}
 			if !s1.Has(rv) {
